@@ -1,8 +1,10 @@
 #!/bin/bash
-# scaled-down pass over every thorough command (harness smoke test after a change to the simulator)
+# scaled-down pass over thorough commands (harness smoke test after a change to the simulator)
+# usage: tools/thorough_smoke.sh <scale> [ids...]
 export VERIF_EVIDENCE_DIR=$PWD/ts-ev VERIF_REPLAY_DIR=$PWD/ts-rp
-for id in C19 C20 C12 C08 C10 C11 C13 C09; do
+sc=${1:-0.15}; shift
+for id in ${@:-C19 C20 C12 C08 C10 C11 C13 C09}; do
   s=$(date +%s)
-  ./check $id --tier thorough --scale ${1:-0.15} > ts_$id.log 2>&1
+  ./check $id --tier thorough --scale $sc > ts_$id.log 2>&1
   echo "$id exit=$? $(( $(date +%s)-s ))s $(grep -m2 '^--- \|^HARNESS' ts_$id.log | cut -c1-300) | $(tail -1 ts_$id.log | cut -c1-160)"
 done
